@@ -277,7 +277,27 @@ class C18(IO):
                     free -= k
                 ops.append(["W", sizes])
             cases.append({"ad": ad, "cap": cap, "prefix": None, "stream": [], "rs": [], "ws": ws, "ops": ops})
+        # the sniffing rewind buffer as the auto server builds it: ReadVersion over a fragmented inner stream
+        # (chunks and Pending results at any point of the first 24 bytes), then reads through the Rewind it returns
+        ns = 250 if tier == "quick" else 6000
+        P = list(PREFACE)
+        sn_streams = [P + [0, 0, 18, 4, 0, 0, 0, 0, 0] + [7] * 18, P + [1, 2, 3], P[:12] + list(b" HTTP/1.1\r\nHost: a\r\n\r\n"),
+                      list(b"GET /some/path HTTP/1.1\r\nHost: a\r\n\r\nbody"), P[:23] + [0, 9, 9], P[:5]]
+        for _ in range(ns):
+            st = rng.choice(sn_streams)
+            script, left = [], 24
+            while left > 0 and len(script) < 12:
+                if rng.random() < 0.4:
+                    script.append("P")
+                k = rng.choice([1, 2, 3, 5, 8, 16, 23, 24])
+                script.append(["D", k])
+                left -= k
+            if rng.random() < 0.5:
+                script.append("P")
+            cases.append({"ad": "sn", "prefix": None, "stream": st, "rs": script, "ws": [],
+                          "ops": self.rand_ops(rng, rng.randint(2, 8), writes=False)})
         return cases, {"rule": f"{n} random (seeded) op sequences over {len(self.ADAPTERS)} adapter stacks + 54 targeted rewind cases + "
+                               f"{ns} sniff-then-read cases (ReadVersion over fragmented first bytes with Pending results, then the Rewind it built) + "
                                f"{nd} write / vectored-write sequences against back-pressure on the REAL duplex pipe (capacity 1..13), bare and "
                                "under TlsBraid / client Stream / server Stream, far end drained and compared",
                        "exhaustive": False}
